@@ -9,7 +9,7 @@ LEVEL = ('TLC checks the property\'s invariants / action properties on every sta
          'between two runs, the relation TLC verified on the specification is demanded of two implementation runs)')
 NOTE = 'bounded model (constants in spec/cfg/*.cfg); TLC, the Rust harness (number codec, renderer) and rust_decimal are trusted'
 CHECKS = {
- 'C01': ('tlc-cgt', 'TLA+ spec Cgt.tla (matcher state machine) model-checked with TLC; spec->impl replay of every TLC behaviour (legs, costs, proceeds, gains) at several base dates and line orders; implementation-shaped machine Matcher.tla model-checked to refine Cgt.tla (MC_Matcher) and replayed exactly; traces recorded from the real matcher (verif hooks) validated by TLC against CgtTrace.tla'),
+ 'C01': ('tlc-cgt', 'TLA+ spec Cgt.tla (matcher state machine) model-checked with TLC; spec->impl replay of every TLC behaviour (legs, costs, proceeds, gains) at several base dates and line orders; implementation-shaped machines Matcher.tla (day cells) and Lines.tla (transaction lines of several securities in file order) model-checked to refine Cgt.tla (MC_Matcher, MC_Lines: every line order) and replayed exactly; traces recorded from the real matcher (verif hooks) validated by TLC against CgtTrace.tla'),
  'C02': ('tlc-cgt', 'TLA+ spec Cgt.tla conservation invariants model-checked with TLC; the same equalities evaluated on the implementation\'s report for every TLC behaviour'),
  'C03': ('tlc-cgt', 'TLA+ spec Cgt.tla CostConserved invariant model-checked; replay of every behaviour; for cost-event ledgers a second TLC pass (Obs_Cgt.tla) re-runs the spec on the apportionment recorded by the verif hooks and compares legs and pools exactly'),
  'C04': ('tlc-report', 'TLA+ spec Report.tla / MC_Report.tla (per-year totals, exemption look-up) model-checked; per-year totals and identities compared on the real TaxReport'),
@@ -40,7 +40,7 @@ ENGINES_EXTRA = [
 ]
 ENGINES = [
  {'name': 'tlc-cgt', 'path': 'spec/Cgt.tla', 'serves_properties': [p for p, (e, _) in CHECKS.items() if e == 'tlc-cgt'],
-  'kind_free_text': 'TLA+ state machine of the share matcher (Cgt.tla) with generator MC_Cgt.tla, two-instance law model MC_CgtLaw.tla, observation pass Obs_Cgt.tla, trace specification CgtTrace.tla and the implementation-shaped machine Matcher.tla with its refinement model MC_Matcher.tla; TLC + Rust replay / recording harness (harness/cgtv)'},
+  'kind_free_text': 'TLA+ state machine of the share matcher (Cgt.tla) with generator MC_Cgt.tla, two-instance law model MC_CgtLaw.tla, observation pass Obs_Cgt.tla, trace specification CgtTrace.tla, the implementation-shaped machine Matcher.tla with its refinement model MC_Matcher.tla and the line-level machine Lines.tla (several securities, every line order) with its refinement model MC_Lines.tla; TLC + Rust replay / recording harness (harness/cgtv: replay_cgt, replay_law, replay_lines, record_cgt)'},
  {'name': 'tlc-report', 'path': 'spec/Report.tla', 'serves_properties': [p for p, (e, _) in CHECKS.items() if e == 'tlc-report'],
   'kind_free_text': 'TLA+ Report.tla / Calendar.tla with MC_Report.tla and MC_Calendar.tla; TLC + Rust replay harness'},
  {'name': 'tlc-fx', 'path': 'spec/Fx.tla', 'serves_properties': [p for p, (e, _) in CHECKS.items() if e == 'tlc-fx'],
